@@ -48,7 +48,7 @@ type Engine struct {
 	MaxPaths     int
 	MaxForks     int
 
-	Paths, Asserts, Discharged, Trivial, Unknown, Blocked, Aborts int
+	Paths, Asserts, Discharged, Trivial, Unknown, Blocked, Aborts, FreeForks int
 	FuncsSeen                                                     map[string]bool
 	ModelsUsed                                                    map[string]bool
 	Assumptions                                                   map[string]bool
@@ -61,7 +61,8 @@ type Engine struct {
 	blockedOK                                                     bool
 	sents                                                         map[string]*IfaceV
 	lastAlloc                                                     *Term
-	crcMemo                                                       map[string]*Term
+	crcMemo     map[string]*Term
+	reMemo      map[string]*Term
 }
 
 func (e *Engine) note(format string, a ...interface{}) {
@@ -216,9 +217,9 @@ func (e *Engine) concretize(st *State, t *Term, what string) int {
 		}
 		cl := st.clone()
 		e.rewind(cl)
-		cl.pc = append(cl.pc, e.ts.Not(eq))
+		cl.addPC(e.ts.Not(eq))
 		e.work = append(e.work, cl)
-		st.pc = append(st.pc, eq)
+		st.addPC(eq)
 	}
 	v, _ := concreteInt(c)
 	return v
@@ -260,9 +261,9 @@ func (e *Engine) decide(st *State, c *Term) bool {
 	}
 	cl := st.clone()
 	e.rewind(cl)
-	cl.pc = append(cl.pc, e.ts.Not(c))
+	cl.addPC(e.ts.Not(c))
 	e.work = append(e.work, cl)
-	st.pc = append(st.pc, c)
+	st.addPC(c)
 	return true
 }
 
@@ -349,26 +350,30 @@ func (e *Engine) branch(st *State, c *Term) bool {
 	if c.IsConst() {
 		return c.boolVal()
 	}
-	rt := e.check(st.pc, c)
-	if rt == "unsat" {
-		return false
-	}
-	if rt != "sat" {
-		e.Unknown++
-		e.abort("INCONCLUSIVE: solver %s on branch", rt)
-	}
-	rf := e.check(st.pc, e.ts.Not(c))
-	if rf == "unsat" {
-		return true
-	}
-	if rf != "sat" {
-		e.Unknown++
-		e.abort("INCONCLUSIVE: solver %s on branch", rf)
+	if !st.freeChoice(c) {
+		rt := e.check(st.pc, c)
+		if rt == "unsat" {
+			return false
+		}
+		if rt != "sat" {
+			e.Unknown++
+			e.abort("INCONCLUSIVE: solver %s on branch", rt)
+		}
+		rf := e.check(st.pc, e.ts.Not(c))
+		if rf == "unsat" {
+			return true
+		}
+		if rf != "sat" {
+			e.Unknown++
+			e.abort("INCONCLUSIVE: solver %s on branch", rf)
+		}
+	} else {
+		e.FreeForks++
 	}
 	other := st.clone()
-	other.pc = append(other.pc, e.ts.Not(c))
+	other.addPC(e.ts.Not(c))
 	e.pendingFalse = other
-	st.pc = append(st.pc, c)
+	st.addPC(c)
 	return true
 }
 
@@ -687,7 +692,7 @@ func (e *Engine) require(st *State, cond *Term, kind, msg string) bool {
 		return true
 	case "sat":
 		neg := st.clone()
-		neg.pc = append(neg.pc, e.ts.Not(cond))
+		neg.addPC(e.ts.Not(cond))
 		e.violation(neg, kind, msg)
 	default:
 		e.Unknown++
@@ -696,7 +701,7 @@ func (e *Engine) require(st *State, cond *Term, kind, msg string) bool {
 	if e.check(st.pc, cond) != "sat" {
 		return false
 	}
-	st.pc = append(st.pc, cond)
+	st.addPC(cond)
 	return true
 }
 
@@ -1187,7 +1192,7 @@ func (e *Engine) assume(st *State, c *Term) bool {
 		}
 		return false
 	}
-	st.pc = append(st.pc, c)
+	st.addPC(c)
 	return true
 }
 
